@@ -38,6 +38,10 @@ type node struct {
 	// Context passed to the runnable, and its cancel function.
 	ctx  context.Context
 	ctxC context.CancelFunc
+
+	// Set once a runnable that signaled DONE has returned, ie. there is no goroutine left that could
+	// notice a later cancelation of its context.
+	doneExited bool
 }
 
 // nodeState is the state of a runnable within a node, and in a way the node itself.
@@ -171,6 +175,7 @@ func (n *node) reset() {
 
 	// Clear children and state
 	n.state = nodeStateNew
+	n.doneExited = false
 	n.children = make(map[string]*node)
 	n.groups = nil
 
